@@ -50,6 +50,19 @@ theorem reachable_markers (evs : List Ev) :
     refine ⟨by omega, by simp [h3], ?_⟩
     intro r hr; rw [h3] at hr; injection hr with hr; omega
 
+/-- **Index before queue**: `Accept` writes a block to the chain index before it hands it to
+the async accepter, so every block in the queue (or about to be queued) is already indexed and
+the committed state never runs ahead of the index, in every reachable state. The start-up
+relies on it (`idx < st` is refused as an invalid state). -/
+theorem index_written_before_enqueue (evs : List Ev) :
+    (∀ h ∈ (run Node.init evs).queue ++ (run Node.init evs).toEnqueue.toList, h ≤ (run Node.init evs).p.idx)
+    ∧ (run Node.init evs).p.st ≤ (run Node.init evs).p.idx := by
+  refine ⟨?_, (reachable_markers evs).1⟩
+  obtain ⟨d, _, hd, hq, _⟩ := reachable_inv evs
+  intro h hh
+  rw [hq, mem_consec] at hh
+  omega
+
 /-- **Write order**: in every reachable persistent state the stored execution results belong to
 the block at the state height or a later one (`VM.AcceptBlock` writes the results before it
 commits the state). The start-up relies on it. -/
@@ -212,6 +225,8 @@ theorem repair_design_subscribers_at_least_once_in_order (evs : List Ev) :
 example : (run Node.init [.indexUpdate, .enqueue, .indexUpdate, .enqueue, .indexUpdate, .enqueue, .indexUpdate, .enqueue,
     .writeResults, .commitState, .notifyA, .notifyB, .writeResults]).p = { idx := 4, st := 1, res := some 2 } := by decide
 example : restart { idx := 4, st := 1, res := some 2 } = .ok 4 [2, 3, 4, 4] := by decide
+/-- the start-up's invalid-state branch is live in the model (and unreachable by `index_written_before_enqueue`) -/
+example : restart { idx := 3, st := 4, res := some 4 } = .errIndexAhead := by decide
 /-- both disjuncts of the partial theorem's hypothesis occur with the index ahead / level -/
 example : (run Node.init [.indexUpdate, .enqueue, .indexUpdate, .enqueue, .writeResults]).stage = 1 := by decide
 example : (run Node.init [.indexUpdate, .enqueue, .writeResults, .commitState, .notifyA]).p = { idx := 1, st := 1, res := some 1 } := by decide
